@@ -71,12 +71,24 @@ def cases():
                         out.append({"c": name, "defs": list(defs), "pre": pre, "use": f"sib{j}", "ctx": "seq", "dk": "rtref"})
     for pre_kind in ("straight", "in_if"):
         out.append({"c": "state", "defs": [1], "pre": 0, "use": pre_kind, "ctx": "coro", "dk": "rtref"})
+    # the same placements with the value CONSUMED differently after the construct: as the subject of a match without /
+    # with a default (all patterns constant: one VHDL case statement whose selector is the only read) or in a comparison
+    for name, nb, has_default in CONSTRUCTS:
+        if name not in ("if", "ifelse", "match2d", "for2else", "nestedelse"):
+            continue
+        for defs in itertools.product((0, 1), repeat=nb):
+            for pre in (0, 1):
+                if not any(defs) and not pre:
+                    continue
+                for uk in ("matchsubj", "matchsubjd", "cmp"):
+                    out.append({"c": name, "defs": list(defs), "pre": pre, "use": "after", "ctx": "seq", "uk": uk})
     return out
 
 
 CASES = cases()
 K = [1, 2, 3, 4, 5]
 KPRE = 9
+MATCH_VALUES = [1, 2, 3, 4, 5, 6, 9, 10, 11, 12]
 
 
 def paths(c):
@@ -221,7 +233,15 @@ def render_src(c):
             B += branch_body(c, 2, 8)
             B.append("    else:")
             B += branch_body(c, 3, 8)
-    if c["use"] == "after":
+    if c["use"] == "after" and c.get("uk") in ("matchsubj", "matchsubjd"):
+        B.append("match t:")
+        for v in MATCH_VALUES:
+            B += [f"    case {v}:", f"        self.o <<= {v}"]
+        if c["uk"] == "matchsubjd":
+            B += ["    case _:", "        self.o <<= 14"]
+    elif c["use"] == "after" and c.get("uk") == "cmp":
+        B += ["if t == 3:", "    self.o <<= 3", "else:", "    self.o <<= 14"]
+    elif c["use"] == "after":
         B.append("self.o[0] <<= t" if c.get("dk") == "rtref" else "self.o <<= t")
     if c["ctx"] == "coro":
         B.append("await true")
@@ -236,9 +256,12 @@ def model_value(c, br, d, i2=0):
             return bit if ((br is not None and c["defs"][br]) or c["pre"]) else None
         return bit if br == int(c["use"][3:]) else "hold"
     if c["use"] == "after":
-        if br is not None and c["defs"][br]:
-            return (d + K[br]) & 15
-        return (d + KPRE) & 15 if c["pre"] else None
+        v = (d + K[br]) & 15 if br is not None and c["defs"][br] else (d + KPRE) & 15 if c["pre"] else None
+        if v is None or not c.get("uk"):
+            return v
+        if c["uk"] == "cmp":
+            return 3 if v == 3 else 14
+        return v if v in MATCH_VALUES else 14 if c["uk"] == "matchsubjd" else "hold"
     j = int(c["use"][3:])
     if br == j:
         return (d + KPRE) & 15  # only reachable when predefined (sibling j does not define it)
